@@ -152,6 +152,18 @@ func init() {
 	mk("crypto/sha512.New", newHasher(algSHA512))
 	mk("crypto/sha1.New", newHasher(algSHA1))
 	mk(modulePath+"/lib/others/ripemd160.New", newHasher(algRIPEMD))
+	mk("crypto/hmac.New", func(tr *FnTr, x ssa.Value, a []Val, cc *ssa.CallCommon) Val {
+		id := tr.newObject("hmac")
+		tr.ghostNew(id, Int(algHMAC))
+		// the key is part of the identity of the MAC: an uninterpreted function of its bytes
+		tr.vc.DeclareUF("mackey", []Sort{SArr, SInt, SInt}, SInt)
+		key := a[1]
+		u8 := leafTag(Leaf{K: LInt, B: types.Typ[types.Uint8]})
+		karr := Select(readThrough(tr.st.Mem, key.L[0], u8, 0), key.L[0])
+		arr := Store(tr.ghostArr(id), Int(-3), App("mackey", SInt, karr, key.L[1], key.L[2]))
+		tr.st.Ghost = tr.vc.Def("ghost", Store(tr.st.Ghost, id, arr))
+		return Val{L: []*Term{id}}
+	})
 	mk(modulePath+"/lib/btc.Hasher", func(tr *FnTr, x ssa.Value, a []Val, cc *ssa.CallCommon) Val {
 		id := tr.newObject("hasher")
 		tr.ghostNew(id, Add(Int(algTagged), a[0].L[0]))
